@@ -498,7 +498,9 @@ bool StepScript(ScriptExecutionEnvironment& env, CScript::const_iterator& pc, CS
                 case OP_MOD:
                 case OP_LSHIFT:
                 case OP_RSHIFT:
-                    return StepExtended(env, pc, local_script);
+                    // (not "return StepExtended": the stack size limit below applies to these operations as well)
+                    if (!StepExtended(env, pc, local_script)) return false;
+                    break;
                 //
                 // Push value
                 //
